@@ -46,6 +46,8 @@ func BaseDocs() []*Doc {
 		Q(F("val", F("vid"), F("vm")), F("vals", F("vid"), F("vm")), F("as", F("id"))),
 		// B12 enum and string arguments that a reflected method takes as Go string / named string parameters
 		Q(F("paint").WithArgs(Arg{"c", EnumLit("RED")}, Arg{"t", "matt"}), F("a", Al("p", F("paint").WithArgs(Arg{"c", EnumLit("BLUE")})), Al("q", F("paint").WithArgs(Arg{"t", "gloss"})))),
+		// B14 method-backed fields (the ones a fault plan can fail under every strategy) on the elements of typed lists, two levels
+		Q(F("kids", F("id"), F("mi")), F("as", F("mi"), F("kids", F("mi"), F("mkid", F("id"))))),
 	}
 }
 
